@@ -307,6 +307,9 @@ def coverage_world(seed, kinds, annotated=False):
         filtered.append(r.name)
     for i in range(4):
         w.reads.append(Read("unm%03d" % i, None, -1, [], "ACGTACGTACGT", flag=4, mapq=0, truth={"filtered": "unmapped"}))
+    # unmapped records that carry a position (legal SAM: placed next to a mate or by the aligner's output order; CIGAR '*'); fetch() returns them
+    for i in range(2):
+        w.reads.append(Read("unmplaced%03d" % i, "chr1", 3600 + 700 * i, [], "ACGTACGTACGT", flag=4, mapq=0, truth={"filtered": "unmapped"}))
     if annotated:
         # a few genes under the clusters so that reads are processed by the genic branch
         for ci, c in enumerate(clusters):
